@@ -401,7 +401,11 @@ theorem pySlice_nodup (n : Nat) (a b : Option Int) (k : Int) : (pySlice n a b k)
 
 theorem normIdx_lt {n : Nat} {i : Int} {p : Nat} (h : normIdx n i = some p) : p < n := by
   unfold normIdx at h
-  split at h <;> split at h <;> first | cases h | (injection h with h; omega)
+  split at h <;> split at h
+  · injection h with h; omega
+  · cases h
+  · injection h with h; omega
+  · cases h
 
 theorem gather_idxOf (labels ls : List String) (h : ∀ l ∈ ls, l ∈ labels) :
     gather labels (ls.map (labels.idxOf ·)) = ls := by
@@ -553,5 +557,57 @@ theorem ISel.resolve_spec (labels : List String) (s : ISel) (ps : List Nat)
     exact ⟨fun p hp => List.mem_range.mp hp, gather_range labels, fun _ => List.nodup_range⟩
 
 end resolve
+
+/-! ### the tails of `getitem` / `loc` / `iloc`, `mkdm ∘ toDict` -/
+
+section ops
+variable {α : Type}
+
+theorem finish_subview [Truncate α] {d : DM α} (hw : d.WF) {rowOne colOne : Bool} {rs cs : List Nat}
+    (hrs : rs.Nodup) (hcs : cs.Nodup) (hrr : ∀ p ∈ rs, p < d.alts.length) (hcr : ∀ p ∈ cs, p < d.crits.length)
+    (hform : (!rowOne && colOne) = false) {d' : DM α} (h : finish attach d rowOne colOne rs cs = .ok d') :
+    SubView d' d ∧ d'.alts = gather d.alts rs ∧ d'.crits = gather d.crits cs := by
+  unfold finish at h
+  split at h
+  · cases h
+  · split at h
+    · exact attach_subview hw hrs hcs hrr hcr (cutOf_restore d hw rs cs hcs hcr upcast upcast_length) h
+    · split at h
+      · rename_i h1 h2 h3
+        simp_all
+      · exact attach_subview hw hrs hcs hrr hcr (cutOf_take d hw rs cs hcs hcr) h
+
+/-- the `(rows, single column)` form: if it answers at all, every selected alternative label is also a
+criterion label, and the answer is the transposed thing: the criterion became the only alternative -/
+theorem finish_colSeries [Truncate α] {d : DM α} {rs cs : List Nat} {d' : DM α}
+    (h : finish attach d false true rs cs = .ok d') :
+    d'.alts = gather d.crits cs ∧ d'.crits = gather d.alts rs ∧ ∀ a ∈ gather d.alts rs, a ∈ d.crits := by
+  simp only [finish, Bool.false_and, Bool.false_eq_true, if_false, if_true] at h
+  obtain ⟨o, w, ho, _, rfl⟩ := attach_ok h
+  refine ⟨rfl, rfl, ?_⟩
+  intro a ha
+  by_contra hna
+  have : (colSeriesFrame d rs cs).columns.mapM (objOf d) = none :=
+    mapM_none_of_mem _ _ a ha (lookup_of_not_mem hna)
+  rw [this] at ho
+  cases ho
+
+theorem mapM_ofInt_toInt (os : List Obj) : (os.map Obj.toInt).mapM Obj.ofInt? = some os := by
+  induction os with
+  | nil => rfl
+  | cons o os ih =>
+    simp only [List.map_cons, List.mapM_cons, ih]
+    cases o <;> rfl
+
+/-- `mkdm(**dm.to_dict())` rebuilds exactly the same matrix (all six parts, positionally) -/
+theorem mkdm_toDict (d : DM α) (hw : d.WF) : mkdm (toDict d) = .ok d := by
+  obtain ⟨_, _, hol, hwl, hdl, hcl, hrl⟩ := hw
+  have h1 : (d.cells.all (·.length == d.crits.length)) = true := by
+    rw [List.all_eq_true]; intro r hr; simpa using hrl r hr
+  unfold mkdm toDict
+  simp only [h1, not_true_eq_false, if_false, hcl, hdl, ne_eq, mapM_ofInt_toInt]
+  simp [DM.init, hwl, hol]
+
+end ops
 
 end Skc.Data
